@@ -309,6 +309,16 @@ func c14Serve(c *Ctx, fn *ssa.Function, decPkg, short string) {
 		goBlocks[g.Block()] = true
 	}
 	rb := read.Block()
+	// K3: every datagram that was read is handed to the decoder — no path leads from the read back to the next read without
+	// the decode call (a length or content pre-filter in front of the decoder drops datagrams the decoder would accept; which
+	// datagrams "decode" is the decoder's verdict alone)
+	if dec.Block() != rb {
+		reach := reachFromSuccs(rb, nil, map[*ssa.BasicBlock]bool{dec.Block(): true})
+		r.Check(!reach[rb], "C14-K3", key("every datagram read reaches the decoder"), c.P.ipos(dec), "no path from the read to the next read avoids the decode call",
+			"a datagram can be read and then skipped before it is decoded (a pre-filter on its length or content): datagrams that decode are not dispatched")
+	} else {
+		r.OK("C14-K3", key("every datagram read reaches the decoder"), c.P.ipos(dec), "read and decode in one block", "")
+	}
 	// K2: from the error edge, no go before the next read
 	{
 		reach := reachFrom(errEdge.To, nil, map[*ssa.BasicBlock]bool{rb: true})
